@@ -64,6 +64,10 @@ def run(ctx):
     C05.check_tree(ctx, db)
     C05.check_conversions(ctx, db)
     C05.check_overflow(ctx, db)
+    nf = C05.check_forwarding(ctx, db, 'gdstk::offset', 'offset')
+    ctx.require('R-EFFECT offset convenience overloads', nf, 1)
+    from . import C14
+    C14.check_translation_invariance(ctx, db)   # polygon_to_path orients every operand by the sign of signed_area
 
 
 MANIFEST = dict(
